@@ -24,6 +24,13 @@ import (
 	"saomc/world"
 )
 
+func tailOf(s string, n int) string {
+	if len(s) > n {
+		return s[len(s)-n:]
+	}
+	return s
+}
+
 func verifRoot() string {
 	if r := os.Getenv("VERIF_ROOT"); r != "" {
 		return r
@@ -469,6 +476,7 @@ func cmdCheck(args []string) int {
 	}
 	sort.Strings(sigs)
 	violations := 0
+	harnessErr2 := false
 	knownMet := map[string]bool{}
 	other := 0
 	var lines []string
@@ -500,6 +508,18 @@ func cmdCheck(args []string) int {
 		path := filepath.Join(dir, name+".json")
 		bz, _ := json.MarshalIndent(Trace{Check: id, Tier: *tier, Scenario: scenOf[sig], Finding: f}, "", " ")
 		os.WriteFile(path, bz, 0o644)
+		// a violation found by engine X is replayed once more from a fresh world (separate process, no search) before
+		// it is reported; if it does not reproduce the harness is at fault, not the repository
+		if scenOf[sig] != "extra" && f.Clause != "non-termination" {
+			self, _ := os.Executable()
+			rp := exec.Command(self, "replay", path)
+			rp.Env = append(os.Environ(), "GOMAXPROCS=2")
+			outb, _ := rp.CombinedOutput()
+			if !strings.Contains(string(outb), "REPRODUCED "+sig) || strings.Contains(string(outb), "NOT REPRODUCED") {
+				fmt.Fprintf(os.Stderr, "HARNESS: finding %s did not reproduce on replay:\n%s\n", sig, tailOf(string(outb), 600))
+				harnessErr2 = true
+			}
+		}
 		lines = append(lines, fmt.Sprintf("VIOLATION property=%s replay=%s", id, path))
 		lines = append(lines, fmt.Sprintf("  signature: %s\n  detail: %s\n  root: %s trace: %s", sig, f.Detail, f.Root, strings.Join(f.Trace, " ; ")))
 	}
@@ -573,6 +593,10 @@ func cmdCheck(args []string) int {
 		id, *tier, merged.States, merged.Transitions+extra.Evaluations, merged.NonTrivial+extra.Distinct, merged.DepthDone, merged.Exhaustive, violations, len(knownMet), time.Since(t0).Seconds())
 	if vacuous != "" {
 		fmt.Println("HARNESS ERROR:", vacuous)
+		return 2
+	}
+	if harnessErr2 {
+		fmt.Println("HARNESS ERROR: a reported finding did not reproduce on replay (see stderr); no verdict")
 		return 2
 	}
 	if violations > 0 {
